@@ -48,7 +48,8 @@ PROP = {'drive': ['Total'] + ['Total' + g for g in _GROUPS],
                        'C02_gpos11_no_panic', 'C02_gpos12_no_panic', 'C02_gpos21_no_panic', 'C02_gpos22_no_panic',
                        'C02_gpos31_no_panic', 'C02_gpos_dispatch_no_panic', 'C02_anchor_no_panic', 'C02_markarray_no_panic',
                        'C02_gpos11_cost', 'C02_gpos12_cost', 'C02_gpos21_cost_partial', 'C02_gpos22_cost',
-                       'C02_gpos31_cost', 'C02_markarray_cost', 'C02_gpos11_agrees', 'C02_gpos12_agrees'],
+                       'C02_gpos31_cost', 'C02_markarray_cost', 'C02_gpos11_agrees', 'C02_gpos12_agrees',
+                       'C02_gsub_dispatch_agrees', 'C02_gsub_dispatch_unrepaired_collision', 'C02_chain_dispatch_agrees', 'C02_seqctx_dispatch_agrees', 'C02_gpos_dispatch_agrees', 'C02_lookuplist_no_ext_ext', 'C02_lookuplist_no_ext_ext_gpos', 'C02_lookuplist_ext_ext_rejected'],
  'areas': [('total', 3000, 28000)],
  'rule': 'distinct case lines (decoder, bytes); non-trivial = input of at least 4 bytes',
  'partial': [
@@ -75,10 +76,9 @@ PROP = {'drive': ['Total'] + ['Total' + g for g in _GROUPS],
      '(alloc <= 4096*len + 16 MiB, time <= 50 us*len + 3 s, 10 s time-out); they calibrate, they do not prove',
      'open findings (replayed on every run from known_findings.jsonl): aliasing cost in gdef (distinct tables), GSUB context (#27), name '
      'records, lookup list, script list (cubic), GSUB 8.1, GPOS 2.1, chained context 3; re-encoding refused by an explicit encoder panic '
-     '(generator class reencode-refused; strict=1 on the known line); extension-to-extension lookup surviving readLookupList '
-     '(Context.Apply panics "unreachable"). Observed, not C02: the reader key 10*LookupType+format collides/wraps in uint16, so a '
-     'format unknown for its lookup type is decoded by another reader (the C08 dispatcher models answer invalid there). Repaired under '
-     'this property: #35 kern, glyph-name count, #40, #26, #37 (aliased offsets), #36, Format0.Lookup negative rune; offered: '
+     '(generator class reencode-refused; strict=1 on the known line). Repaired under this property: the uint16 reader-key collision '
+     'of the subtable dispatchers incl. the extension-to-extension lookup on which Context.Apply panicked (8867078; theorems '
+     'C02_lookuplist_no_ext_ext, C02_*_dispatch_agrees), #35 kern, glyph-name count, #40, #26, #37 (aliased offsets), #36, Format0.Lookup negative rune; offered: '
      'patches/C02/06 (zero glyph counts)'],
  'modelled_not_verified': [
      'parser.Parser is taken as a plain byte view of an in-memory reader (theorem C17); ReadBytes(n>1024) is the only panic site and every modelled call has a constant argument',
